@@ -464,7 +464,80 @@ def check_poly_matrix(ctx, case):
   return True
 
 
+def check_bigbatch(ctx, case):
+  """Batch-shape clause at sizes no exact model can afford: every prediction entry point called once on N (1025..4100)
+  query points must agree, within conditioning-scaled rounding, with the same entry point called on chunks of <= 200."""
+  from libsigopt.compute.gaussian_process_sum import GaussianProcessSum
+  import scipy.linalg
+  base = case["base"]
+  dim = base["dim"]
+  comps = base["components"]
+  try:
+    gps = [make_gp(c, base["X"], dim) for c in comps]
+  except (numpy.linalg.LinAlgError, scipy.linalg.LinAlgError, ValueError, AssertionError):
+    ctx.count("bigbatch: construction rejected")
+    ctx.case(key=case, nontrivial=False)
+    return False
+  obj = GaussianProcessSum(gps, base["weights"]) if base["kind"] == "sum" else gps[0]
+  rs = numpy.random.RandomState(case["qseed"])
+  N = case["N"]
+  Xq = rs.uniform(-0.2, 1.2, size=(N, dim))
+  Xtr = numpy.array(base["X"], dtype=float).reshape(-1, dim)
+  Xq[rs.choice(N, size=min(N, 40), replace=False)] = Xtr[rs.randint(len(Xtr), size=min(N, 40))]  # some on training points
+  if comps[0]["cov"]["kind"] == "multitask":
+    Xq[:, -1] = rs.choice([0.1, 0.3, 1.0], size=N)
+  cond = 1.0
+  for g in gps:
+    L = numpy.tril(numpy.asarray(g.K_chol[0], dtype=float))
+    d = numpy.abs(numpy.diag(L))
+    cond = max(cond, float(numpy.linalg.cond(L)) ** 2 if d.min() > 0 else 1e300)
+  if cond > 1e9:
+    ctx.count("bigbatch: skipped (cond > 1e9)")
+    ctx.case(key=case, nontrivial=False)
+    return False
+  wsum = sum(abs(w) for w in base["weights"]) if base["kind"] == "sum" else 1.0
+  w2sum = sum(w * w for w in base["weights"]) if base["kind"] == "sum" else 1.0
+  ymax = max(max(abs(v) for v in c["y"]) for c in comps) + 1.0
+  amax = max(float(numpy.max(numpy.diag(g.covariance.build_kernel_matrix(Xtr[:1])))) for g in gps)
+  rel = max(1e-10, 256 * EPS * cond)
+  differentiable = all(c["cov"]["kind"] != "c0" for c in comps)
+
+  def entry(name, X):
+    if name == "mean":
+      return (obj.compute_mean_of_points(X),)
+    if name == "var":
+      return (obj.compute_variance_of_points(X),)
+    if name == "mean_and_var":
+      return obj.compute_mean_and_variance_of_points(X)
+    return obj.compute_mean_variance_grad_of_points(X)
+
+  names = ["mean", "var", "mean_and_var"] + (["mean_var_grad"] if differentiable else [])
+  step = case["chunk"]
+  for name in names:
+    whole = [numpy.asarray(a, dtype=float) for a in entry(name, Xq)]
+    parts = [entry(name, Xq[i:i + step]) for i in range(0, N, step)]
+    for k, w in enumerate(whole):
+      chunked = numpy.concatenate([numpy.asarray(p[k], dtype=float) for p in parts], axis=0)
+      is_var = (name == "var") or (k == 1 and name != "mean") or k == 3
+      scale = (w2sum * amax if is_var else wsum * ymax * max(1.0, cond ** 0.5))
+      if k >= 2:
+        scale *= 1e3  # gradients: length scales down to 1e-2
+      err = float(numpy.max(numpy.abs(w - chunked))) if w.size else 0.0
+      if w.shape != chunked.shape or not numpy.all(numpy.isfinite(w)) or err > rel * scale:
+        i = int(numpy.argmax(numpy.abs(w - chunked).reshape(len(w), -1).max(axis=1))) if w.shape == chunked.shape else -1
+        ctx.violation(f"C02 batch shape: {name} output {k} on one batch of {N} points differs from the same entry point on chunks of {step} "
+                      f"(max abs difference {err:.3g}, tolerance {rel * scale:.3g})",
+                      {"case": case, "clause": "batch shape", "entry": name, "output": k, "row": i, "N": N})
+        ctx.case(key=case, nontrivial=True)
+        return True
+  ctx.count(f"bigbatch N={N}")
+  ctx.case(key=case, nontrivial=True)
+  return True
+
+
 def check_case(ctx, case):
+  if case.get("kind") == "bigbatch":
+    return check_bigbatch(ctx, case)
   from libsigopt.compute.gaussian_process_sum import GaussianProcessSum
   import scipy.linalg
 
@@ -686,3 +759,13 @@ def run(ctx, scale):
     check_case(ctx, gen_case(ctx.rng))
     if len(ctx.violations) >= 5:
       break
+  # large batches (sizes around and beyond powers of two up to 4100): one call vs chunked calls
+  want, tries = (6 if ctx.tier == "quick" else 60) * scale, 0
+  while want > 0 and tries < 40 * scale * (1 if ctx.tier == "quick" else 10) and len(ctx.violations) < 5:
+    tries += 1
+    base = gen_case(ctx.rng)
+    base["lies"] = []
+    if check_case(ctx, {"kind": "bigbatch", "base": base, "N": ctx.rng.choice([513, 1025, 1300, 2049, 3000, 4100]),
+                        "chunk": ctx.rng.choice([1, 7, 64, 200]) if ctx.tier != "quick" else ctx.rng.choice([64, 200]),
+                        "qseed": ctx.rng.randrange(2 ** 31)}):
+      want -= 1
